@@ -298,8 +298,11 @@ func runC09(r *ev.Run) {
 }
 
 func c09Image(r *ev.Run, dir, name string, cfg c09Config, f *c09Files, desc string, mustSucceed bool, k int, opsS []string, before []byte) {
-	orig := filepath.Join(dir, name+".sqlite")
-	cp := filepath.Join(dir, name+"-copy.sqlite")
+	// the journal is found by name: vary the database file's name (extension, dots, none)
+	exts := []string{".sqlite", ".db", "", ".a.b", "-journal.sqlite", ".SQLITE", ".sqlite3"}
+	ext := exts[(k+len(name))%len(exts)]
+	orig := filepath.Join(dir, name+ext)
+	cp := filepath.Join(dir, name+"-copy"+ext)
 	defer func() {
 		for _, p := range []string{orig, cp} {
 			os.Remove(p)
